@@ -30,17 +30,17 @@ CLAIMED = {
     technique="SAT-based bounded model checking (Kani/CBMC) of real primitives with Kani's panic checks, and SMT (z3, QF_BV) over the MIR of all registered built-in procedures for argument-vector accesses and for index guards against the preconditions of the indexing calls behind them, and for panic sites against symbolic argument kinds; native replay by concrete playback / a script call under catch_unwind",
     design="§4 C07"),
  "C19": dict(
-    text="Bounded model checking (Kani/CBMC) of the real allocator's accounting from every 3-slot pre-state: a slot without any handle is free after a weak collection; after mark_all_unreachable + marks + recount the free count equals the number of unmarked slots; the fill ratio stays in [0,1].",
+    text="Bounded model checking (Kani/CBMC) of the real allocator's accounting from every 3-slot pre-state: a slot without any handle is free after a weak collection; after mark_all_unreachable + marks + recount the free count equals the number of unmarked slots; the fill ratio stays in [0,1]. Round 3: a rank-encoded reachability query over the MIR of GlobalSlotRecycler::recycle: a global root is queued only after the membership test of the candidate set (candidates are not roots), replayed with Drop-counting host values owned by shadowed self-recursive definitions.",
     note="As C04. Outside: cyclic garbage, the collection trigger policy, weak boxes, host-root generations (need the marker and a running VM).",
-    technique="SAT-based bounded model checking (Kani/CBMC) of allocator accounting steps from a symbolic valid state",
+    technique="SAT-based bounded model checking (Kani/CBMC) of allocator accounting steps from a symbolic valid state; SMT (z3, QF_BV) reachability over the MIR control flow of the slot recycler",
     design="§4 C19"),
  "C20": dict(
-    text="Bounded model checking (Kani/CBMC) of the real scalar conversions at the host boundary on full-width symbolic values: Ok(v) only with the same mathematical value, out of range => Err, host integers never wrap on the way in (big integer above the machine word), round trips are the identity. Plus an SMT query per register_fn wrapper closure (MIR -> QF_BV, z3): no two different argument counts reach the host function call, and parameter k of the host call is computed from exactly args[k]. Round 3: rank-encoded path queries (z3) over the six wrappers that hand out a reference DERIVED from a lent reference: no path to the hand-out without marking the parent as borrowed on the same flag object, without parking the owner of the derived pointer in the nursery, or with the flag of another argument than the receiver.",
+    text="Bounded model checking (Kani/CBMC) of the real scalar conversions at the host boundary on full-width symbolic values: Ok(v) only with the same mathematical value, out of range => Err, host integers never wrap on the way in (big integer above the machine word), round trips are the identity. Plus an SMT query per register_fn wrapper closure (MIR -> QF_BV, z3): no two different argument counts reach the host function call, and parameter k of the host call is computed from exactly args[k]. Round 3: rank-encoded path queries (z3) over the six wrappers that hand out a reference DERIVED from a lent reference: no path to the hand-out without marking the parent as borrowed on the same flag object, without parking the owner of the derived pointer in the nursery, or with the flag of another argument than the receiver. And round trips: every u64 / usize / i64 / u32 value into the script side and back is the identity.",
     note="Scalars only (i8..u128, f32, f64, char, bool, unit, Option<i32>, big-integer sources up to 2^66); arity: only branch conditions on the argument-slice length are interpreted, every other branch is free. Outside: strings/vectors/maps/sets/tuples/structs, argument value extraction in register_fn (needs an Engine), lent references (nursery is a destructor-bearing thread-local). Lending: only the three control-flow facts of lib/p_lend.py; the run-time checks that use the flags, the nursery clean-up at the end of a lending call and clones of derived references are exercised by the native replay only.",
     technique="SAT-based bounded model checking (Kani/CBMC) of the real conversion impls on full-width symbolic scalars, and SMT (z3, QF_BV) over the MIR of the register_fn wrapper closures for arity and argument-to-parameter mapping; native replay by concrete playback / a script call through the real Engine",
     design="§4 C20"),
  "C10": dict(
-    text="Bounded model checking with Kani/CBMC of the real numeric primitives on symbolic operands (full 64-bit width for + - negate abs parity arithmetic-shift int/float equality; exact of every integral double; magnitude; machine integer by big integer quotient with a division model; stated smaller ranges for division, multiplication values, expt, rationals) against a 128-bit oracle and a canonical-form check; counterexamples are replayed natively with Kani's concrete playback, which runs the real code. Round 3: the ordering behind <, <=, >, >= (partial_cmp) for every machine integer against every finite double and against big integers just beyond 2^63, floor / ceiling of small rationals for every i32 numerator, the reciprocal of every machine integer; and an SMT query over the code generator's MIR: every integer literal packed into a 24-bit instruction payload (the operand of ADDIMMEDIATE / SUBIMMEDIATE / LTEIMMEDIATE) is below 2^24.",
+    text="Bounded model checking with Kani/CBMC of the real numeric primitives on symbolic operands (full 64-bit width for + - negate abs parity arithmetic-shift int/float equality; exact of every integral double; magnitude; machine integer by big integer quotient with a division model; stated smaller ranges for division, multiplication values, expt, rationals) against a 128-bit oracle and a canonical-form check; counterexamples are replayed natively with Kani's concrete playback, which runs the real code. Round 3: the ordering behind <, <=, >, >= (partial_cmp) for every machine integer against every finite double and against big integers just beyond 2^63, floor / ceiling of small rationals for every i32 numerator, the reciprocal of every machine integer; and an SMT query over the code generator's MIR: every integer literal packed into a 24-bit instruction payload (the operand of ADDIMMEDIATE / SUBIMMEDIATE / LTEIMMEDIATE) is below 2^24. And per specialised arithmetic / comparison opcode arm of the interpreter (10 opcodes) and per number kind of the operand: the arm reaches an operation of the opcode's family (generic primitive, shared ordering, checked machine operation), i.e. one the harnesses decide; a counterexample is replayed differentially against the generic procedure.",
     note="Trusted: Kani/CBMC; num-bigint (its `BigInt += isize`/`*= isize` are modelled by exact i128 arithmetic and the x86 carry intrinsics by their definition); feature set without jit2. `BigInt << u32` and `BigInt::pow` are recording stubs; num-bigint's long division is replaced by an exact model valid for quotient digit 0/1 (num_*_i_big). One SMT query (z3) per numeric kernel over its MIR: every pair of number kinds is handled without reaching unreachable!(); and one over the decision tree of PartialOrd::partial_cmp: every ordered pair of real-number kinds has an arm. Outside: the specialised arithmetic opcodes inlined in the VM loop, the constant folder, number<->string, gcd/lcm, expt beyond exponent -1/-30, full-width division and multiplication values, big-integer division, big operands above two limbs.",
     technique="SAT-based bounded model checking (Kani/CBMC) of the real primitives with a 128-bit arithmetic oracle, and SMT (z3, QF_BV) over the MIR of the numeric kernels for kind-pair totality and (code generator) for the range of literal operands packed into instruction payloads; native replay by concrete playback / a script call",
     design="§4 C10"),
